@@ -196,6 +196,7 @@ type scenario struct {
 	cur    string // task currently inside StartRead
 	cstate map[ident]string
 	pstate map[ident]string
+	lateDB map[int64]string // params.latedb: databases whose record is written only with their first collection
 }
 
 func (s *scenario) putColl(id ident, st string) {
@@ -218,6 +219,11 @@ func (s *scenario) tombColl(id ident) {
 
 func (s *scenario) newColl(id ident, st string) {
 	cid := s.w.collID(id)
+	if name, ok := s.lateDB[s.w.slots[id.c].dbid]; ok {
+		// the database is created right before its first collection (created while the tasks are running)
+		s.cw.PutDatabase(s.w.slots[id.c].dbid, name, catalog.HybridTs(10*id.i-1))
+		delete(s.lateDB, s.w.slots[id.c].dbid)
+	}
 	s.cw.PutFields(cid)
 	s.cw.PutPartition(catalog.Partition{CollID: cid, ID: defPartID(cid), Name: "_default", State: pb.PartitionState_PartitionCreated,
 		CreateTime: catalog.HybridTs(10 * id.i)})
@@ -417,8 +423,25 @@ func runPlan(srv *catalog.Server, p *hx.Plan, n int) []hx.Event {
 	for _, sl := range w.slots {
 		dbNames[sl.dbid] = sl.db
 	}
+	sc.lateDB = map[int64]string{}
+	if hx.B(p.Params, "latedb") {
+		// databases without any collection record in the initial catalog do not exist yet
+		used := map[int64]bool{1: true}
+		for _, c := range hx.ML(raw, "init") {
+			if hx.S(c, "st") != "none" && hx.S(c, "st") != "" {
+				used[w.slots[hx.S(c, "c")].dbid] = true
+			}
+		}
+		for id, name := range dbNames {
+			if !used[id] {
+				sc.lateDB[id] = name
+			}
+		}
+	}
 	for id, name := range dbNames {
-		cw.PutDatabase(id, name, catalog.HybridTs(1))
+		if _, late := sc.lateDB[id]; !late {
+			cw.PutDatabase(id, name, catalog.HybridTs(1))
+		}
 	}
 	initEv := []hx.Event{}
 	for _, c := range hx.ML(raw, "init") {
